@@ -132,13 +132,17 @@ Definition hstep_wf (st : hstep) : Prop :=
      - the directory holds exactly the listed segment files                (C13)
      - every call's result, and the state after it, equal the contiguous-log
        model's, before and after any number of crashes                     (C05 C03)  *)
+(* guard: the 64-bit segment id counter does not wrap (each step allocates at most
+   two segment ids, so this excludes only histories of more than 2^62 steps) *)
+Definition short_enough {A : Type} (l : list A) : Prop := N.of_nat (length l) < 4611686018427387904.
+
 Definition crash_refinement_stmt : Prop :=
-  forall c steps, cfg_ok c -> Forall hstep_wf steps ->
+  forall c steps, cfg_ok c -> Forall hstep_wf steps -> short_enough steps ->
     hs_ok (hist_run c hist_init steps) = true.
 
 (* the crash-free special case (C05): results and states agree with the spec *)
 Definition seq_refinement_stmt : Prop :=
-  forall c os s0, cfg_ok c -> Forall sop_ok os -> initial c = Some s0 ->
+  forall c os s0, cfg_ok c -> Forall sop_ok os -> short_enough os -> initial c = Some s0 ->
     let '(rs, s1) := run_model c s0 os in
     let '(rs', sp1) := run_spec {| sp_log := sl_empty; sp_kv := [] |} os in
     map res_class rs = rs' /\
